@@ -48,14 +48,15 @@ theorem actFold_spec : ∀ (acts : List ((Nat × Nat) × (Item × Action))) (t t
     acts.foldlM (fun t e => writeAction t e.1.1 e.1.2 e.2.2) t = some t' → (acts.map (·.1)).Nodup →
     t'.nT = t.nT ∧ t'.nN = t.nN ∧ t'.nStates = t.nStates ∧ t'.start = t.start ∧ t'.gotos = t.gotos ∧
     (∀ e ∈ acts, e.1.2 ≤ t.nT ∧ e.1.1 < t.nStates ∧ t'.action e.1.1 e.1.2 = e.2.2) ∧
-    (∀ s col, col ≤ t.nT → (s, col) ∉ acts.map (·.1) → t'.action s col = t.action s col) := by
+    (∀ s col, col ≤ t.nT → (s, col) ∉ acts.map (·.1) → t'.action s col = t.action s col) ∧
+    t'.actions.length = t.actions.length := by
   intro acts
   induction acts with
   | nil =>
     intro t t' h _
     have h : some t = some t' := h
     cases h
-    exact ⟨rfl, rfl, rfl, rfl, rfl, by simp, by simp⟩
+    exact ⟨rfl, rfl, rfl, rfl, rfl, by simp, by simp, rfl⟩
   | cons e rest ih =>
     intro t t' h hnd
     rw [List.foldlM_cons] at h
@@ -65,10 +66,10 @@ theorem actFold_spec : ∀ (acts : List ((Nat × Nat) × (Item × Action))) (t t
       rw [h1] at h
       have h : rest.foldlM (fun t e => writeAction t e.1.1 e.1.2 e.2.2) t1 = some t' := h
       rw [List.map_cons, List.nodup_cons] at hnd
-      obtain ⟨s1, s2, s3, s4, _, s6, _⟩ := writeAction_shape h1
+      obtain ⟨s1, s2, s3, s4, s5, s6, _⟩ := writeAction_shape h1
       obtain ⟨c1, c2, c3, c4⟩ := writeAction_cell h1
-      obtain ⟨i1, i2, i3, i4, i5, i6, i7⟩ := ih t1 t' h hnd.2
-      refine ⟨by rw [i1, s1], by rw [i2, s2], by rw [i3, s3], by rw [i4, s4], by rw [i5, s6], ?_, ?_⟩
+      obtain ⟨i1, i2, i3, i4, i5, i6, i7, i8⟩ := ih t1 t' h hnd.2
+      refine ⟨by rw [i1, s1], by rw [i2, s2], by rw [i3, s3], by rw [i4, s4], by rw [i5, s6], ?_, ?_, by rw [i8, s5]⟩
       · intro e' he'
         rcases List.mem_cons.mp he' with rfl | he'
         · refine ⟨c1, c2, ?_⟩
@@ -87,7 +88,8 @@ theorem actFold_spec : ∀ (acts : List ((Nat × Nat) × (Item × Action))) (t t
 theorem writeGoto_cell {t t' : Table} {s col g : Nat} (h : writeGoto t s col g = some t') :
     col < t.nN ∧ s < t.nStates ∧ t'.goto s col = some g ∧
     (∀ s2 c2, c2 < t.nN → (s2, c2) ≠ (s, col) → t'.goto s2 c2 = t.goto s2 c2) ∧
-    t'.nT = t.nT ∧ t'.nN = t.nN ∧ t'.nStates = t.nStates ∧ t'.start = t.start ∧ t'.actions = t.actions := by
+    t'.nT = t.nT ∧ t'.nN = t.nN ∧ t'.nStates = t.nStates ∧ t'.start = t.start ∧ t'.actions = t.actions ∧
+    t'.gotos.length = t.gotos.length := by
   unfold writeGoto at h
   split at h
   · rename_i hb
@@ -96,7 +98,7 @@ theorem writeGoto_cell {t t' : Table} {s col g : Nat} (h : writeGoto t s col g =
     · rename_i hlt
       simp only [Option.map_some, Option.some.injEq] at h
       subst h
-      refine ⟨hb.1, hb.2, ?_, ?_, rfl, rfl, rfl, rfl, rfl⟩
+      refine ⟨hb.1, hb.2, ?_, ?_, rfl, rfl, rfl, rfl, rfl, by simp⟩
       · unfold Table.goto
         simp only
         rw [getD_set_self' hlt]
@@ -114,14 +116,15 @@ theorem gotoFold_spec : ∀ (gts : List ((Nat × Nat) × Nat)) (t t' : Table),
     gts.foldlM (fun t e => writeGoto t e.1.1 e.1.2 e.2) t = some t' → (gts.map (·.1)).Nodup →
     t'.nT = t.nT ∧ t'.nN = t.nN ∧ t'.nStates = t.nStates ∧ t'.start = t.start ∧ t'.actions = t.actions ∧
     (∀ e ∈ gts, e.1.2 < t.nN ∧ e.1.1 < t.nStates ∧ t'.goto e.1.1 e.1.2 = some e.2) ∧
-    (∀ s col, col < t.nN → (s, col) ∉ gts.map (·.1) → t'.goto s col = t.goto s col) := by
+    (∀ s col, col < t.nN → (s, col) ∉ gts.map (·.1) → t'.goto s col = t.goto s col) ∧
+    t'.gotos.length = t.gotos.length := by
   intro gts
   induction gts with
   | nil =>
     intro t t' h _
     have h : some t = some t' := h
     cases h
-    exact ⟨rfl, rfl, rfl, rfl, rfl, by simp, by simp⟩
+    exact ⟨rfl, rfl, rfl, rfl, rfl, by simp, by simp, rfl⟩
   | cons e rest ih =>
     intro t t' h hnd
     rw [List.foldlM_cons] at h
@@ -131,9 +134,9 @@ theorem gotoFold_spec : ∀ (gts : List ((Nat × Nat) × Nat)) (t t' : Table),
       rw [h1] at h
       have h : rest.foldlM (fun t e => writeGoto t e.1.1 e.1.2 e.2) t1 = some t' := h
       rw [List.map_cons, List.nodup_cons] at hnd
-      obtain ⟨c1, c2, c3, c4, s1, s2, s3, s4, s5⟩ := writeGoto_cell h1
-      obtain ⟨i1, i2, i3, i4, i5, i6, i7⟩ := ih t1 t' h hnd.2
-      refine ⟨by rw [i1, s1], by rw [i2, s2], by rw [i3, s3], by rw [i4, s4], by rw [i5, s5], ?_, ?_⟩
+      obtain ⟨c1, c2, c3, c4, s1, s2, s3, s4, s5, s6⟩ := writeGoto_cell h1
+      obtain ⟨i1, i2, i3, i4, i5, i6, i7, i8⟩ := ih t1 t' h hnd.2
+      refine ⟨by rw [i1, s1], by rw [i2, s2], by rw [i3, s3], by rw [i4, s4], by rw [i5, s5], ?_, ?_, by rw [i8, s6]⟩
       · intro e' he'
         rcases List.mem_cons.mp he' with rfl | he'
         · refine ⟨c1, c2, ?_⟩
@@ -201,6 +204,8 @@ structure Cells (c : Ctx) (m : Machine) (t : Table) : Prop where
   /-- GOTO cells are the nonterminal transitions -/
   gotoOf : ∀ tr ∈ m.transitions, ∀ b, tr.sym = .n b → t.goto tr.frm b = some tr.to
   gotoJust : ∀ s b to, b < c.nN → t.goto s b = some to → (⟨s, to, .n b⟩ : Transition) ∈ m.transitions
+  alen : t.actions.length = m.states.length * (c.nT + 1)
+  glen : t.gotos.length = m.states.length * c.nN
 
 theorem emptyTable_action (c : Ctx) (m : Machine) (s col : Nat) : (emptyTable c m).action s col = .err := by
   unfold Table.action emptyTable
@@ -259,8 +264,8 @@ theorem machineToTable_cells {c : Ctx} {m : Machine} {t : Table} (h : machineToT
         | some t1 =>
           rw [hf1] at hres3
           simp only [Option.bind_some] at hres3
-          obtain ⟨p1, p2, p3, p4, p5, p6, p7⟩ := actFold_spec _ _ _ hf1 (by rw [a2]; exact n1)
-          obtain ⟨q1, q2, q3, q4, q5, q6, q7⟩ := gotoFold_spec _ _ _ hres3 n2
+          obtain ⟨p1, p2, p3, p4, p5, p6, p7, p8⟩ := actFold_spec _ _ _ hf1 (by rw [a2]; exact n1)
+          obtain ⟨q1, q2, q3, q4, q5, q6, q7, q8⟩ := gotoFold_spec _ _ _ hres3 n2
           have hact : ∀ s col, t.action s col = t1.action s col := by
             intro s col; unfold Table.action; rw [q5, q1]
           have hgoto1 : ∀ s col, t1.goto s col = none := by
@@ -273,7 +278,9 @@ theorem machineToTable_cells {c : Ctx} {m : Machine} {t : Table} (h : machineToT
               demand := ?_
               justified := ?_
               gotoOf := ?_
-              gotoJust := ?_ }
+              gotoJust := ?_
+              alen := by rw [q5, p8]; simp [emptyTable]
+              glen := by rw [q8, p5]; simp [emptyTable] }
           · intro s st hst it hit col a hd
             obtain ⟨e, he⟩ := hrec s st hst it hit col a (by rw [Nat.zero_add]; exact hd)
             simp only [Nat.zero_add] at he
